@@ -1038,6 +1038,46 @@ fn oracle(args: &[String]) {
     let mut evals = 0u64;
     let mut nontrivial = 0u64;
     let mut bad = 0u64;
+    // ---------- (0) single substitution over ONE wide coverage range (format 2): every covered glyph is mapped, whatever
+    //            the width of the range (63..66, 127..130 glyphs and 1000+ around the widths of the lookup accelerator)
+    for width in [2u16, 63, 64, 65, 66, 127, 128, 129, 130, 1023, 1024, 1025, 1090] {
+        for start in [1u16, 10, 37, 64] {
+            let ng = start + width + 120;
+            let mut spec = FontSpec::basic(ng);
+            spec.cmap = (0..ng as u32 - 1).map(|i| (0xF0000 + i, 1 + i as u16)).collect();
+            let st = SubstSubtable::Single1 { coverage: Coverage::Ranges(vec![(start, start + width - 1)]), delta: 100 };
+            spec.gsub = Some(Layout::single_feature(*b"liga", vec![Lookup::one(st)]));
+            let mut picks: Vec<u16> = vec![start, start + 1, start + width - 1, start + width / 2, start + width, start.saturating_sub(1).max(1)];
+            for k in 0..8u16 {
+                picks.push(start + (k * 37 + 5) % width);
+            }
+            for (k, g) in picks.iter().enumerate() {
+                // one glyph per text too: the buffer digest then holds nothing else
+                let texts: Vec<Vec<u16>> = if k == 0 { vec![picks.clone()] } else { vec![vec![*g]] };
+                for t in texts {
+                    let q = Req { text: t.iter().enumerate().map(|(i, x)| (0xF0000 + *x as u32 - 1, i as u32)).collect(), dir: Some(rustybuzz::Direction::LeftToRight), flags: 3, ..Default::default() };
+                    let want: Vec<(u32, u32)> = t.iter().enumerate().map(|(i, x)| ((if *x >= start && *x < start + width { *x + 100 } else { *x }) as u32, i as u32)).collect();
+                    evals += 1;
+                    nontrivial += 1;
+                    match shape_spec(&spec, &q) {
+                        Ok(gs) => {
+                            let got = ids_clusters(&gs);
+                            if got != want {
+                                bad += 1;
+                                let mut small = spec.clone();
+                                small.hadv.truncate(0);
+                                println!("oracle-fail single-wide-range want={:?} got={:?} req=[{}] b64={} dbg=range {}..={}", want, got, fmt_req(&q), b64_encode(&build(&spec)), start, start + width - 1);
+                            }
+                        }
+                        Err(e) => {
+                            bad += 1;
+                            println!("oracle-fail single-wide-range want={:?} got=panic:{} req=[{}] b64={} dbg=range {}..={}", want, e, fmt_req(&q), b64_encode(&build(&spec)), start, start + width - 1);
+                        }
+                    }
+                }
+            }
+        }
+    }
     for _ in 0..n {
         let ng: u16 = r.range(6, 20) as u16;
         let hot = r.range(3, 5) as u16;
